@@ -8,9 +8,16 @@ def run(chk, prog, tier):
     CR.c02_addressing_constants(chk, prog)
     CR.t6_modrm_shape(chk, prog, rule="T6")
     CR.t6_modrm_shape(chk, prog, rule="T6s", want_sib=True)
+    CR.nobase_mod_rule(chk, prog)
+    from valib import pipeline as PL
+    from valib import cover as CV
+    roles = PL.Roles(prog)
+    PL.encoder_idempotence_rule(chk, prog, roles)     # displacement emission must not consume the record (it is assembled again when chunk fitting pads)
+    CV.cover_rule(chk, prog, roles)                   # displacement / SIB bytes: every byte below the returned length is written
     chk.explanation = (
         "Decides necessary structural conditions of C02 only: the mod/SIB/no-base constants have their architectural "
         "values, the scale switch accepts exactly 1,2,4,8 and maps them to the SIB scale bits, ModRM is composed as "
         "mod | reg<<3 | rm (rm=100b for SIB) and SIB as scale | index<<3 | base with the index/base fields of the "
-        "operand in those positions. NOT decided: displacement scanning and sign handling, mod selection by "
+        "operand in those positions; a base-less operand (base=101b) always gets mod=00; the emitter does not consume the "
+        "record and writes every byte it counts. NOT decided: displacement scanning and sign handling, mod selection by "
         "magnitude, rbp/r13 and rsp/r12 special cases, equivalence of NASM rewriting - all value logic on runtime strings.")
